@@ -253,6 +253,8 @@ def run(tier):
     specs = [("elementwise", ["a", "b"], corpus.LENS_QUICK[:1], 2, 2), ("dot", ["a", "b"], corpus.LENS_QUICK[:1], 2, 2),
              ("reduce", ["a", "b", "c"], corpus.LENS_QUICK[:1], 3, 3), ("idcat", ["a", "b"], corpus.LENS_QUICK[:1], 3, 3), ("get_at", ["a", "b"], corpus.LENS_QUICK[:1], 2, 3)]
     cases = corpus.generate(rep, specs)
+    if tier == "thorough":
+        cases = corpus.cap(cases, 30000)
     rep.exhaustive = True
     step = {"elementwise": 40, "get_at": 25, "reduce": 6, "dot": 2, "id": 3} if tier == "quick" else {"elementwise": 6, "get_at": 4, "reduce": 1, "dot": 1, "id": 1}
     items = []
